@@ -1560,6 +1560,9 @@ func op_jmp(cpu *CPU) {
 	case m_Absolute_Indirect_Long:
 		cpu.PC = cpu.nRead16_wrap(0x00, cpu.StepInfo.Addr)
 		cpu.RK = cpu.nRead(0x00, cpu.StepInfo.Addr+2)
+	case m_Absolute_X_Indirect:
+		// Addr already holds the pointer fetched from K:(abs+X) with wrap inside the bank
+		cpu.PC = cpu.StepInfo.Addr
 	default:
 		cpu.PC = cpu.cmdRead16()
 	}
@@ -1579,7 +1582,8 @@ func op_jsl(cpu *CPU) {
 func op_jsr(cpu *CPU) {
 	cpu.push16(cpu.PC + 2)
 	switch cpu.StepInfo.Mode {
-	case m_Absolute:
+	case m_Absolute, m_Absolute_X_Indirect:
+		// for (abs,X) Addr already holds the pointer fetched from K:(abs+X) with wrap inside the bank
 		cpu.PC = cpu.StepInfo.Addr
 	default:
 		cpu.PC = cpu.cmdRead16()
